@@ -19,8 +19,9 @@ VERIF = os.path.dirname(os.path.abspath(__file__))
 REPO = os.environ.get("VERIF_REPO", "/repo")
 SPEC = os.path.join(VERIF, "spec")
 HARNESS = os.path.join(VERIF, "harness")
-EVID = os.path.join(VERIF, "evidence")
-REPLAYS = os.path.join(VERIF, "replays")
+# (VERIF_OUT_DIR redirects the outputs of development runs against patched scratch worktrees)
+EVID = os.path.join(os.environ.get("VERIF_OUT_DIR", VERIF), "evidence")
+REPLAYS = os.path.join(os.environ.get("VERIF_OUT_DIR", VERIF), "replays")
 NCPU = os.cpu_count() or 4
 
 GOENV = dict(os.environ, GOFLAGS="-mod=mod", GOPROXY="off", GOSUMDB="off", GOTOOLCHAIN="local")
